@@ -41,7 +41,7 @@ from psyclone.errors import InternalError, LazyString
 from psyclone.psyGen import Transformation
 from psyclone.psyir.nodes import (
     ArrayReference, ArrayOfStructuresReference, BinaryOperation, Call,
-    CodeBlock, Container, IntrinsicCall, Node, Range, Routine, Reference,
+    CodeBlock, Container, IntrinsicCall, Loop, Node, Range, Routine, Reference,
     Return, Literal, Assignment, StructureMember, StructureReference)
 from psyclone.psyir.nodes.array_mixin import ArrayMixin
 from psyclone.psyir.symbols import (
@@ -182,6 +182,12 @@ class InlineTrans(Transformation):
         formal_args = routine_table.argument_list
         for ref in refs[:]:
             self._replace_formal_arg(ref, node, formal_args)
+        # The variable of a Loop is a Symbol rather than a Reference.
+        for stmt in new_stmts:
+            for loop in stmt.walk(Loop):
+                if loop.variable in formal_args:
+                    loop.variable = node.arguments[
+                        formal_args.index(loop.variable)].symbol
 
         # Store the Routine level symbol table and node's current scope
         # so we can merge symbol tables later if required.
@@ -788,6 +794,15 @@ class InlineTrans(Transformation):
                 f"({len(node.arguments)}) does not match the number of "
                 f"arguments the routine is declared to have "
                 f"({len(routine_table.argument_list)})."))
+
+        for loop in routine.walk(Loop):
+            if loop.variable in routine_table.argument_list and type(
+                    node.arguments[routine_table.argument_list.index(
+                        loop.variable)]) is not Reference:
+                raise TransformationError(
+                    f"Routine '{routine.name}' cannot be inlined because its "
+                    f"argument '{loop.variable.name}' is a loop variable but "
+                    f"the actual argument is not a scalar variable.")
 
         for formal_arg, actual_arg in zip(routine_table.argument_list,
                                           node.arguments):
